@@ -426,6 +426,11 @@ class Analysis:
             if l in self.escaped:
                 return None
             k = st.alias.get(l, l) if st is not None else l
+            hops = 0
+            while st is not None and isinstance(k, int) and k != l and k in st.alias and hops < 4 \
+                    and self.pointee_ty(k) is not None:
+                k = st.alias[k]      # a == b and b == c unified one after the other
+                hops += 1
             if isinstance(k, int):
                 if k in self.escaped:
                     return None
@@ -569,6 +574,14 @@ class Analysis:
         pk = self.plimb_key(op)
         if pk is not None:
             return self.get(st, pk), pk
+        if op["p"] == ["deref"] and self.v.local_ty(l).get("k") == "ref" and not self.v.local_ty(l).get("m"):
+            # `*r` for a shared reference to an integer local (assert_eq!'s `(&a, &b)` tuple): while the borrow is
+            # live the pointee cannot change, so its current value is the value read
+            k = self._ref_value_key(st, l)
+            if k is not None:
+                if is_c(k):
+                    return (k[1], k[1]), None
+                return self.get(st, k), k
         if l in self.escaped:
             return None, None
         path = self.path_of(op["p"])
@@ -1495,6 +1508,17 @@ class Analysis:
                 return ("local", rv["pl"]["l"])
             elif rv["r"] == "use" and rv["a"].get("o") in ("copy", "move") and not rv["a"]["p"]:
                 l = rv["a"]["l"]
+            elif rv["r"] == "use" and rv["a"].get("o") in ("copy", "move") and len(rv["a"]["p"]) == 1 \
+                    and isinstance(rv["a"]["p"][0], list) and rv["a"]["p"][0][0] == "f":
+                # field k of a tuple literal of references: `match (&a, &b) { (l, r) => .. }`
+                td = self.v.single_def(rv["a"]["l"])
+                if td is None or td[1] == "term" or td[2]["rv"]["r"] != "agg" or td[2]["rv"].get("kind") != "tuple":
+                    return ("local", l)
+                k_ = rv["a"]["p"][0][1]
+                ops_ = td[2]["rv"]["ops"]
+                if k_ >= len(ops_) or ops_[k_].get("o") not in ("copy", "move") or ops_[k_]["p"]:
+                    return ("local", l)
+                l = ops_[k_]["l"]
             elif rv["r"] == "use" and rv["a"].get("o") == "const" and rv["a"].get("c") == "promoted":
                 return ("promoted", rv["a"]["i"])
             else:
@@ -2015,6 +2039,22 @@ class Analysis:
                         armed = {ir.wrap(v, tn) for v in all_vals}
                         if all(x in armed for x in range(cur[0], cur[1] + 1)):
                             continue
+                    if cur is not None:
+                        # `match x { 0 => .., _ => here }`: the armed values at either end of the interval are excluded
+                        tn = self.v.local_tyname(d["l"])
+                        armed = {ir.wrap(v, tn) for v in all_vals}
+                        lo_, hi_ = cur
+                        while lo_ in armed and lo_ <= hi_:
+                            lo_ += 1
+                        while hi_ in armed and hi_ >= lo_:
+                            hi_ -= 1
+                        if lo_ > hi_:
+                            continue
+                        if (lo_, hi_) != cur:
+                            ns = st.copy()
+                            self.set(ns, d["l"], (lo_, hi_))
+                            if _k is not None and not is_c(_k):
+                                self.set(ns, _k, (lo_, hi_))
                 elif plain and self.rng[d["l"]] is not None and len(vals) > 1 and not is_other:
                     cur, _k = self.eval_operand(st, d)
                     tn = self.v.local_tyname(d["l"])
